@@ -127,7 +127,7 @@ func alternatives(c *Case, th []float64) [][]float64 {
 }
 
 func oracleEstimator(c *Case) string {
-	if c.Err || (c.Kind == "normal" && !c.Pert) {
+	if c.Err {
 		return ""
 	}
 	w, x, th := linWeights(c), ffs(c.Xs), ffs(c.Res)
@@ -136,6 +136,12 @@ func oracleEstimator(c *Case) string {
 		W += v
 	}
 	if !(W > 0) {
+		return ""
+	}
+	if c.Kind == "normal" && math.IsNaN(th[1]) {
+		return fmt.Sprintf("returned standard deviation is NaN (mu = %v) although the data carry weight", th[0])
+	}
+	if c.Kind == "normal" && !c.Pert {
 		return ""
 	}
 	if c.Kind == "normal" {
